@@ -47,6 +47,7 @@ import (
 	"github.com/honeycombio/refinery/logger"
 	"github.com/honeycombio/refinery/metrics"
 	"github.com/honeycombio/refinery/pubsub"
+	"github.com/honeycombio/refinery/route"
 	"github.com/honeycombio/refinery/sample"
 	"github.com/honeycombio/refinery/sharder"
 	"github.com/honeycombio/refinery/transmit"
@@ -169,7 +170,26 @@ func (comp) Gen(r *kit.Rng, maxLen int, tier string) kit.Case {
 		return fmt.Sprintf("%s %d %s %d %d %s", tid, sid, kind, root, client, clsVals[r.Intn(len(clsVals))])
 	}
 	for i := 0; i < n; i++ {
-		switch r.Pick(42, 10, 9, 14, 11, 9) {
+		switch r.Pick(42, 10, 9, 14, 11, 9, 4) {
+		case 6:
+			detPts := []int64{-7, 1, 2, 10, 1000, 1<<31 - 1, 1<<32 - 1, 1<<32 + 1, 1<<62 + 3}
+			dynPts := []int64{-5, -1, 0, 0, 1, 2, 100, 1 << 31, 1 << 62}
+			rulePts := []int64{-3, 0, 1, 1, 2, 50, 1 << 32}
+			convPts := []int64{0, 0, 1, 2, 1<<31 - 1, 1 << 31, -1, -1 << 63, 1<<63 - 1}
+			switch r.Intn(4) {
+			case 0:
+				ops = append(ops, fmt.Sprintf("floor det %d", detPts[r.Intn(len(detPts))]))
+			case 1:
+				ops = append(ops, fmt.Sprintf("floor dyn %d", dynPts[r.Intn(len(dynPts))]))
+			case 2:
+				ops = append(ops, fmt.Sprintf("floor rule %d %d", rulePts[r.Intn(len(rulePts))], b2i(r.Chance(25))))
+			default:
+				v := convPts[r.Intn(len(convPts))]
+				if r.Chance(40) {
+					v = int64(r.Next() % (1 << 31))
+				}
+				ops = append(ops, fmt.Sprintf("conv batch %d", v))
+			}
 		case 0:
 			tid := tids[r.Intn(len(tids))]
 			if t, ok := pickFrom(decided); ok && r.Chance(35) {
@@ -538,8 +558,61 @@ func (r *runner) Do(op []string) (string, bool) {
 		waitFor("workers to take the reload branch", func() bool { return r.ctl.ReloadPending() == 0 })
 		r.ctl.Park()
 		return "", false
+	case "floor":
+		return r.floor(op)
+	case "conv":
+		if len(op) != 3 || op[1] != "batch" {
+			return "bad-op", true
+		}
+		i, _ := strconv.ParseInt(op[2], 10, 64)
+		return strconv.FormatUint(uint64(route.VerifDecorateBatchRate(i)), 10), true
 	}
 	return "bad-op", true
+}
+
+// floor asks a real sampler of the given kind, configured with (or, for dyn, fed by a dynsampler
+// answering) the integer n, for its rate on a one-span trace.
+func (r *runner) floor(op []string) (obs string, has bool) {
+	if len(op) < 3 {
+		return "bad-op", true
+	}
+	n, _ := strconv.ParseInt(op[2], 10, 64)
+	lg, met := &logger.NullLogger{}, &metrics.NullMetrics{}
+	var s sample.Sampler
+	switch op[1] {
+	case "det":
+		d := &sample.DeterministicSampler{Config: &config.DeterministicSamplerConfig{SampleRate: int(n)}, Logger: lg, Metrics: met}
+		s = d
+	case "dyn":
+		d, err := sample.VerifDecorateDynamicSampler(int(n), lg, met)
+		if err != nil {
+			return "start-error", true
+		}
+		s = d
+	case "rule":
+		if len(op) != 4 {
+			return "bad-op", true
+		}
+		s = &sample.RulesBasedSampler{Config: &config.RulesBasedSamplerConfig{Rules: []*config.RulesBasedSamplerRule{
+			{Name: "r", SampleRate: int(n), Drop: op[3] == "1"}}}, Logger: lg, Metrics: met}
+	default:
+		return "bad-op", true
+	}
+	defer func() {
+		if e := recover(); e != nil {
+			obs, has = "panic", true
+		}
+	}()
+	if op[1] != "dyn" {
+		if err := s.Start(); err != nil {
+			return "start-error", true
+		}
+	}
+	tr := &types.Trace{TraceID: "floor"}
+	tr.AddSpan(r.mkSpan([]string{"span", "floor", "0", "s", "0", "1", "a"}))
+	rate, keep, _, _ := s.GetSampleRate(tr)
+	kit.Ext("keep %d", b2i(keep))
+	return strconv.FormatUint(uint64(rate), 10), true
 }
 
 func main() { kit.Main(comp{}, nil) }
